@@ -169,6 +169,96 @@ Print Assumptions C02_no_add_after_delete_never_reuses.
 Print Assumptions C02_history_example.
 
 (* ==================================================================================================================
+   False alarms corrected (harmless changes; design.d/C02.md).  The statements above are about the document
+   Hugr._to_serial writes TODAY (edges in link-insertion order, a full metadata list).  C02 promises "the same multiset
+   of links on every port" and "the same node metadata": neither the order of the `edges` array nor the writing of the
+   metadata table.  Below the writer's choices are a parameter `pres` with SameDoc (pres s) s (same node list, the
+   same multiset of edges, the same dictionary for every node as the loader reads the table: null table, null entry and
+   {} all read as {}) -- model/SerialHugrGen.v to_serial_p, spec/SerialHugrGenS.v, proofs/SerialHugrGenP.v.
+   The order of the NODE list stays fixed: "the only licence is the order-preserving renumbering".
+   ================================================================================================================== *)
+From HV Require Import model.SerialHugrGen spec.SerialHugrGenS proofs.SerialHugrGenP.
+
+Section C02Presentation.
+  Variables op sop md : Type.
+  Variable enc : op -> sop.
+  Variable dec : sop -> op.
+  Variable ndp : op -> dir -> option nat.
+  Variable md_nil : md.
+  Variable md_is_nil : md -> bool.
+  Variables vports sports : op -> dir -> nat.
+  Variable has_order : op -> bool.
+  Hypothesis ndp_spec : forall o d, ndp o d = if has_order o then Some (vports o d + sports o d) else None.
+  Hypothesis md_nil_is_nil : md_is_nil md_nil = true.
+  Hypothesis md_nil_unique : forall m, md_is_nil m = true -> m = md_nil.
+  Hypothesis enc_dec_enc : forall o, enc (dec (enc o)) = enc o.
+  Hypothesis ndp_dec_enc : forall o d, ndp (dec (enc o)) d = ndp o d.
+
+  (* for EVERY presentation: the document loads, the loaded HUGR shows the same observable structure, and it serializes
+     to a document that differs from the first at most in presentation; to the very same document ("a fixed point") when
+     the presentation is canonical, i.e. a function of the SameDoc class (edges sorted, "null when no node has
+     metadata": both the clean tree's and the harmless changes' choices are of this kind or the identity) *)
+  Theorem C02_roundtrip_any_presentation : forall (pres : serial sop md -> serial sop md),
+    (forall s, SameDoc md_nil (pres s) s) ->
+    forall h : hugr op md, guard_b vports sports has_order h = true ->
+    exists s h', to_serial_p enc ndp md_is_nil pres h = Some s /\ from_serial dec ndp md_nil s = Some h' /\
+                 Iso enc h h' /\
+                 exists s2, to_serial_p enc ndp md_is_nil pres h' = Some s2 /\ SameDoc md_nil s2 s /\
+                            ((forall a b, SameDoc md_nil a b -> pres a = pres b) -> s2 = s).
+  Proof.
+    exact (roundtrip_any_presentation op sop md enc dec ndp md_nil md_is_nil vports sports has_order ndp_spec
+             md_nil_is_nil md_nil_unique enc_dec_enc ndp_dec_enc).
+  Qed.
+End C02Presentation.
+
+(* the loader alone: two presentations of a loadable document (node 0 the root, parents earlier, edges between listed
+   nodes with explicit offsets) load to the same HUGR up to the order of links() and the recorded port counts (SameH:
+   same root, same live indices, same operation / parent / ordered children / metadata on every node, the same
+   multiset of links) ... *)
+Theorem C02_loader_respects_presentation :
+  forall (op sop md : Type) (dec : sop -> op) (ndp : op -> dir -> option nat) (md_nil : md) (s s' : serial sop md)
+         (h1 : hugr op md),
+  Loadable sop md s -> SameDoc md_nil s' s -> from_serial dec ndp md_nil s = Some h1 ->
+  exists h2, from_serial dec ndp md_nil s' = Some h2 /\ SameH op md h1 h2.
+Proof. exact load_respects_presentation. Qed.
+(* ... and the HUGR loaded from ANY loadable document whose operations re-encode to themselves serializes to that
+   document with the metadata table written in full (norm_doc): same nodes, same edges in the same order *)
+Theorem C02_reload_writes_the_loaded_document :
+  forall (op sop md : Type) (enc : op -> sop) (dec : sop -> op) (ndp : op -> dir -> option nat) (md_nil : md)
+         (md_is_nil : md -> bool),
+  md_is_nil md_nil = true -> (forall m, md_is_nil m = true -> m = md_nil) ->
+  forall (s : serial sop md) (h' : hugr op md), Loadable sop md s ->
+  (forall y, In y (s_nodes s) -> enc (dec (s_op y)) = s_op y) ->
+  from_serial dec ndp md_nil s = Some h' ->
+  to_serial enc ndp md_is_nil h' = Some (norm_doc sop md md_nil md_is_nil s) /\
+  SameDoc md_nil (norm_doc sop md md_nil md_is_nil s) s.
+Proof.
+  intros op sop md enc dec ndp md_nil md_is_nil H1 H2 s h' HL He Hf. split.
+  - exact (reload_serializes_to_norm op sop md enc dec ndp md_nil md_is_nil H1 H2 s h' HL He Hf).
+  - exact (norm_doc_same sop md md_nil md_is_nil H2 s).
+Qed.
+
+(* non-vacuity: a presentation (edges array reversed, metadata table null when no node has metadata) satisfies the
+   hypothesis; the guarded example HUGR written with it loads with its links in the other order; a HUGR without
+   metadata is written with "metadata": null and is a fixed point *)
+Example C02_presentation_example :
+  (forall s, SameDoc 0 (GenWitness.pres_ex s) s) /\
+  (exists s h', to_serial_p Witness.enc Witness.ndp Witness.md_is_nil GenWitness.pres_ex Witness.good = Some s /\
+                s_edges s = [((1, Some 1), (2, Some 1)); ((1, Some 0), (2, Some 0))] /\
+                Witness.from_s s = Some h' /\ h_links h' = [((1, AOrder), (2, AOrder)); ((1, APort 0), (2, APort 0))]) /\
+  (exists s h', to_serial_p Witness.enc Witness.ndp Witness.md_is_nil GenWitness.pres_ex GenWitness.no_md = Some s /\
+                s_meta s = None /\ Witness.from_s s = Some h' /\
+                to_serial_p Witness.enc Witness.ndp Witness.md_is_nil GenWitness.pres_ex h' = Some s).
+Proof.
+  exact (conj GenWitness.pres_ex_same (conj GenWitness.presentation_example GenWitness.null_metadata_example)).
+Qed.
+
+Print Assumptions C02_roundtrip_any_presentation.
+Print Assumptions C02_loader_respects_presentation.
+Print Assumptions C02_reload_writes_the_loaded_document.
+Print Assumptions C02_presentation_example.
+
+(* ==================================================================================================================
    Composition pass (X02).  The theorems above keep the operation layer abstract and carry the operation-level facts
    as hypotheses; the ones below have none.
 
